@@ -464,7 +464,8 @@ async def zero_tests(mpc, ctx):
     await mpc.shutdown()
 
 
-@program('mutate_after_call', ms=(2, 3), expect=lambda m: [('r', [[4, 5], 9, 20, 23, [5, 7], [4, 10], [4, 5], [4, 5], 5, [4, 5]])])
+@program('mutate_after_call', ms=(2, 3), expect=lambda m: [('r', [[4, 5], 9, 20, 23, [5, 7], [4, 10], [4, 5], [4, 5], 5, [4, 5]]),
+                                                           ('r2', [5, 1, 0, [0, 1, 0], [3, 3], [12, 15], [[36, 45], [36, 45]], [[7, 8], [4, 5]], [1, 5], [4, 5], [4, 5], [4, 5, 4, 5]])])
 async def mutate_after_call(mpc, ctx):
     """The caller overwrites its argument lists right after each call (before yielding to the loop): every API
     function that takes a list works on its own copy, so results must not change."""
@@ -492,6 +493,21 @@ async def mutate_after_call(mpc, ctx):
     x = fresh(); r = mpc.max(x); x[1] = junk; res.append(await mpc.output(r))
     res.append(await f)
     ctx.out('r', res)
+    res2 = []
+    bit = [secint(1), secint(0), secint(1)]
+    x = bit[:]; r = mpc.from_bits(x); x[0] = x[2] = junk; res2.append(await mpc.output(r))
+    x = bit[:]; r = mpc.find(x, 0); x[1] = junk; res2.append(await mpc.output(r))
+    x = bit[:]; r = mpc.all(x); x[1] = junk; res2.append(await mpc.output(r))
+    x = bit[:]; z = bit[:]; r = mpc.add_bits(x, z); x[0] = z[0] = junk; res2.append(await mpc.output(r))
+    x = fresh(); z = [secint(1), secint(2)]; r = mpc.vector_sub(x, z); x[1] = z[0] = junk; res2.append(await mpc.output(r))
+    x = fresh(); r = mpc.scalar_mul(secint(3), x); x[0] = junk; res2.append(await mpc.output(r))
+    A = [fresh(), fresh()]; r = mpc.matrix_prod(A, A); A[0][0] = junk; A[1] = [junk, junk]; res2.append([await mpc.output(row) for row in r])
+    x = fresh(); z = [secint(7), secint(8)]; r = mpc.if_swap(secint(1), x, z); x[0] = z[1] = junk; res2.append([await mpc.output(list(q)) for q in r])
+    x = fresh(); r = mpc.argmax(x); x[1] = junk; res2.append(await mpc.output(list(r)))
+    x = fresh(); r = mpc.min_max(x); x[0] = junk; res2.append(await mpc.output(list(r)))
+    x = fresh(); r = mpc.convert(x, mpc.SecInt(16)); x[0] = junk; res2.append(await mpc.output(r))
+    sl = mpc.seclist(fresh(), secint); src = fresh(); sl.extend(src); src[0] = junk; res2.append(await mpc.output(list(sl)))
+    ctx.out('r2', res2)
     await mpc.shutdown()
 
 
